@@ -46,6 +46,11 @@ CLAIMED = {
   "CueStruct.tla gives each schema conjunct a syntax tree (regular/optional/required fields, patterns, ellipsis, close(), definitions, embeddings, a nested struct) and defines Admits(schemas, data) from the language specification: present restrictable fields allowed by every closed conjunct (embeddings widen, definitions close recursively, close() one level), every applicable constraint satisfied with a concrete result, every required field present, hidden/definition fields never restricted. TLC enumerates every multiset of <= 3 conjuncts of the 24-schema alphabet with each of 14 data structs (exhaustive), checks order-freeness and that open conjuncts never restrict, and each state is unified by the real evaluator in two textual orders; the verdict Validate(Concrete(true)) == nil must equal Admits.",
   "trusted: TLC, the transcription of the spec rules for the alphabet's constructs, the renderer (fresh definition names); canary (flipped verdict) must be noticed. Constructs outside the alphabet (comprehensions, dynamic fields, deeper nesting) are not covered.",
   "DESIGN.md §3 C05"),
+ "C01": ("model_checking",
+  "TLA+ spec of the meaning-preserving rewrites (CueRewrite.tla); TLC explores the rewrite orbit of seed packages; every orbit state is evaluated by the real evaluator and its projection compared with the seed's",
+  "CueRewrite.tla models a package (two files, declarations of a b c, conjunct lists from a 26-entry pool incl. defaults, closed structs, a definition, patterns, lists, sibling references) and the rewrites the property names (swap declarations, swap/regroup/duplicate conjuncts, & _, sole embedding, split/merge same-label declarations, move between files, swap files) as actions; TLC checks the rewrites conserve the (label, conjunct) pairs and enumerates every state reachable in <= 2 (quick) / 3 (thorough) rewrites from 7 fixed and a seeded sample of random seed programs. Each state is rendered as a multi-file package and evaluated; per field the projection (error class, kind, concrete scalar, fields and their kinds, closedness, default, concreteness, and acceptance of 26 probes unified in-language at the field and its x / y children) must equal the seed's. Three genuine order dependences found on the unchanged tree are recorded as known findings.",
+  "trusted: TLC, the projection (guarded by a canary: an altered program must project differently). Random seeds in which an erroneous field is referenced from another field are skipped (known finding class). Comprehensions, dynamic fields, builtins and imports are not in the pool.",
+  "DESIGN.md §3 C01"),
 }
 
 NOT_YET = "check not built yet in this round (see DESIGN.md §8 for the order of construction)"
